@@ -111,6 +111,14 @@ impl<'h> FindMatches<'h> {
     }
 }
 
+#[cfg(all(feature = "verif_hooks", not(feature = "regex_automata")))]
+impl FindMatches<'_> {
+    /// Returns a copy of the bookkeeping state of the iterator (verification hook).
+    pub fn verif_state(&self) -> crate::verif::IterStateDump {
+        self.inner.verif_state()
+    }
+}
+
 impl Iterator for FindMatches<'_> {
     type Item = Match;
 
